@@ -242,6 +242,11 @@ func runC12(c *C12Case, pre, post [][]byte, readerFirst, touch, reuse, reuseCtx,
 	}
 	// the slice handed to NewFileSet has spare capacity and is reused by the caller afterwards: the
 	// file set must not depend on it
+	if reuse && len(pre) > 0 {
+		// ... and the file object had another place before: behind a file of another length in a set
+		// that is thrown away
+		_ = parsley.NewFileSet(text.NewFile("elsewhere", bytes.Repeat([]byte("e"), 37+len(content))), f)
+	}
 	fl = append(make([]parsley.File, 0, len(fl)+3), fl...)
 	fs := parsley.NewFileSet()
 	if shared != nil {
